@@ -170,6 +170,10 @@ class Model:
             self.D[to].set_upstream(self.D[to].upstream + [self.D[frm]])
         for a in spec.get('actions', []):
             self.sched(a)
+        # API calls made BETWEEN two simulate() calls (not from inside an event): [[after_run_index, kind, args...]]
+        self.between = {}
+        for b in spec.get('between', []):
+            self.between.setdefault(b[0], []).append(self.make_action([None, None] + list(b[1:])))
 
     def mk(self, d, in_group=None):
         k = d['k']
@@ -237,7 +241,10 @@ class Model:
 
     # ------------------------------------------------------------------------------ external actions
     def sched(self, a):
-        t, prio, kind = a[0], a[1], a[2]
+        self.env.schedule_event(a[0], -3, self.make_action(a), a[1], f'action {a[2]}')
+
+    def make_action(self, a):
+        kind = a[2]
         env = self.env
         D = self.D
         rm = self.sys.resource_manager
@@ -294,7 +301,7 @@ class Model:
                     x.set_upstream(x.upstream + [u])
         else:
             raise ValueError(kind)
-        env.schedule_event(t, -3, f, prio, f'action {kind}')
+        return f
 
 
 def leaves(p):
